@@ -67,7 +67,10 @@ type sys struct {
 	// holds: task-delay deviation Xh(i<j): the exchange stores the fetched advertisement, but the
 	// ribUpdate task spawned for it is held back until the default event Rl, whatever happens in
 	// between
-	holds     bool
+	holds bool
+	// flight: delivery deviation Xq/Fd (advertisement Data in flight, may be overtaken); it triples
+	// the state space per deviation, so it is used on graphs with <= 2 links (thorough: <= 3)
+	flight    bool
 	trace     *dvsim.Trace
 	m         *dvsim.Machine
 	opsCache  map[string][]explore.Op
@@ -148,6 +151,20 @@ func (y *sys) ops(s *dvsim.Sim) []explore.Op {
 				ops = append(ops, explore.Op{Name: fmt.Sprintf("To(%d#%d)", a, k), Dev: true})
 			}
 		}
+		// Data in flight: answered by the neighbour (content as of then), delivered later, possibly
+		// after the Data of a later fetch from the same neighbour
+		for a := 0; a < n; a++ {
+			for k := range s.FlightOf(a) {
+				ops = append(ops, explore.Op{Name: fmt.Sprintf("Fd(%d#%d)", a, k)})
+			}
+		}
+		for a := 0; y.flight && a < n; a++ {
+			for b := 0; b < n; b++ {
+				if a != b && s.LinkLive(a, b) && !sn.Fresh(a, b) {
+					ops = append(ops, explore.Op{Name: fmt.Sprintf("Xq(%d<%d)", a, b), Dev: true})
+				}
+			}
+		}
 		return ops
 	}
 	for a := 0; a < n; a++ {
@@ -200,30 +217,52 @@ func (y *sys) ops(s *dvsim.Sim) []explore.Op {
 	return ops
 }
 
-// applyOp is the op interpreter handed to the Machine.
+// applyOp is the op interpreter handed to the Machine. It is total: an operation that is not
+// enabled in the state at hand (possible only when a history is re-executed on a source tree whose
+// behaviour is not reproducible) does nothing.
 func applyOp(s *dvsim.Sim, nm string) {
 	var a, b, k int
 	switch {
 	case strings.HasPrefix(nm, "X("):
 		fmt.Sscanf(nm, "X(%d<%d)", &a, &b)
-		s.Exchange(a, b)
+		if s.LinkLive(a, b) {
+			s.Exchange(a, b)
+		}
+	case strings.HasPrefix(nm, "Xq("):
+		fmt.Sscanf(nm, "Xq(%d<%d)", &a, &b)
+		if s.LinkLive(a, b) {
+			s.ExchangeQueued(a, b)
+		}
+	case strings.HasPrefix(nm, "Fd("):
+		fmt.Sscanf(nm, "Fd(%d#%d)", &a, &k)
+		if f := s.FlightOf(a); k < len(f) {
+			s.DeliverFlight(f[k])
+		}
 	case strings.HasPrefix(nm, "Xh("):
 		// the advertisement is fetched and stored by advertDataHandler; the ribUpdate it spawns
 		// (and everything behind it) is held back
 		fmt.Sscanf(nm, "Xh(%d<%d)", &a, &b)
-		s.HoldBefore("advertDataHandler", nm)
-		s.Exchange(a, b)
+		if s.LinkLive(a, b) {
+			s.HoldBefore("advertDataHandler", nm)
+			s.Exchange(a, b)
+		}
 	case nm == "Rl":
 		s.Release()
 	case strings.HasPrefix(nm, "Pg("):
 		fmt.Sscanf(nm, "Pg(%d<%d)", &a, &b)
-		s.Ping(a, b, true)
+		if s.LinkLive(a, b) {
+			s.Ping(a, b, true)
+		}
 	case strings.HasPrefix(nm, "Dl("):
 		fmt.Sscanf(nm, "Dl(%d<%d#%d)", &a, &b, &k)
-		s.DeliverAdv(s.Parked(a, dvsim.KAdvData)[k])
+		if p := s.Parked(a, dvsim.KAdvData); k < len(p) {
+			s.DeliverAdv(p[k])
+		}
 	case strings.HasPrefix(nm, "To("):
 		fmt.Sscanf(nm, "To(%d#%d)", &a, &k)
-		s.FailParked(s.Parked(a, dvsim.KAdvData)[k], ndn.InterestResultTimeout)
+		if p := s.Parked(a, dvsim.KAdvData); k < len(p) {
+			s.FailParked(p[k], ndn.InterestResultTimeout)
+		}
 	case strings.HasPrefix(nm, "Dc("):
 		fmt.Sscanf(nm, "Dc(%d)", &a)
 		s.DeadCheck(a)
@@ -238,10 +277,14 @@ func applyOp(s *dvsim.Sim, nm string) {
 		s.LinkUp(a, b)
 	case strings.HasPrefix(nm, "RD("):
 		fmt.Sscanf(nm, "RD(%d)", &a)
-		s.RouterDown(a)
+		if s.Nodes[a].Up {
+			s.RouterDown(a)
+		}
 	case strings.HasPrefix(nm, "RU("):
 		fmt.Sscanf(nm, "RU(%d)", &a)
-		s.RouterUp(a)
+		if !s.Nodes[a].Up {
+			s.RouterUp(a)
+		}
 	default:
 		panic("unknown op " + nm)
 	}
@@ -314,7 +357,7 @@ func (y *sys) CheckState(i any) []report.Violation {
 	}
 	y.closed[h] = true
 	if y.expect == "" && !y.faults {
-		ref := dvsim.NewSim(y.g)
+		ref := dvsim.NewSimOpt(y.g, y.m.Opt)
 		converge(ref)
 		y.expect = ref.Snap().BestTables()
 		ref.Close()
@@ -439,13 +482,18 @@ func build(cfg string) explore.System {
 	fam := parts[0]
 	y := &sys{cfg: cfg, g: g, faults: fam != "sched", faultsAnywhere: fam == "faultany" || fam == "faultmid" || fam == "hold", holds: fam == "hold"}
 	y.trace = dvsim.NewTrace("C18", cfg)
+	y.flight = len(g.Edges) <= 2 || (os.Getenv("VERIF_TIER") == "thorough" && len(g.Edges) <= 3)
 	if y.holds {
 		vsched.RecordSites = true
 	}
 	var down [][2]int
+	var opt dvsim.Options
 	for _, p := range parts[2:] {
 		fmt.Sscanf(p, "d=%d", &y.closureDepth)
 		fmt.Sscanf(p, "orders=%d", &y.orders)
+		if p == "names=nested" {
+			opt.Nested = true
+		}
 		if strings.HasPrefix(p, "down=") {
 			for _, e := range strings.Split(p[5:], ",") {
 				if len(e) == 2 {
@@ -464,8 +512,19 @@ func build(cfg string) explore.System {
 			converge(s) // these families start from the fixed point of the initial topology
 		}
 	}
-	y.m = dvsim.NewMachineOpt(g, init, applyOp, dvsim.Options{}, "C18|"+cfg)
+	y.m = dvsim.NewMachineOpt(g, init, applyOp, opt, "C18|"+cfg)
 	y.opsCache, y.fromCache = map[string][]explore.Op{}, map[string]string{}
+	y.m.Probe(func(s *dvsim.Sim) []string {
+		var def, dev []string
+		for _, o := range y.ops(s) {
+			if o.Dev {
+				dev = append(dev, o.Name)
+			} else {
+				def = append(def, o.Name)
+			}
+		}
+		return append(def, dev...)
+	}, 8)
 	return y
 }
 
@@ -536,6 +595,9 @@ func configs(th bool) []explore.Config {
 		heavyFault := map[string]bool{"n4:02-03-12-13": true, "n4:01-02-03-12": true, "n4:01-02-03-12-13": true, "n4:01-02-03-12-13-23": true, ring5: true}
 		sched("n2:01", 1, 0)
 		sched("n3:01-02", 1, 0)
+		// router names in a prefix relation (/ndn/r0, /ndn/r0/x1, /ndn/r0/x1/x2, ...)
+		sched("n3:01-02 names=nested", 1, 0)
+		fault("n4:01-03-12 names=nested", 2)
 		hold("n2:01", 2, 0)
 		// faults from the fixed point: <= 2 fault / repair events per history
 		for _, g := range append(append([]string{}, all...), line5) {
@@ -742,7 +804,7 @@ func main() {
 			if th {
 				return 25 * time.Minute
 			}
-			return 100 * time.Second
+			return 90 * time.Second // leaves room for the per-configuration minimum share and the graph analysis
 		},
 		Rule: "BFS to a fixpoint over event histories on N real dv.Router objects per topology; every transition checks C18.adv, every fixed point C18.dist / C18.withdraw; the recorded state graph is then analysed in the parent for C18.fix (terminal states, bottom SCCs, fair cycles, longest path) and C18.unique (one routing table per live topology)",
 		Assumptions: []string{
